@@ -1,5 +1,6 @@
 //! Correspondence and oracle harness for the Lean model of scratchstack-aws-signature (library part).
 pub mod case;
+pub mod corpus;
 pub mod driver;
 pub mod gen;
 pub mod imp;
